@@ -39,6 +39,30 @@ impl Seek for RecDest {
     fn seek(&mut self, p: SeekFrom) -> std::io::Result<u64> { self.tick()?; let r = self.inner.seek(p); self.snap(); r }
 }
 
+/// a destination positioned far into a (sparse) file: the bytes from `start` on are kept, every write that lands below
+/// `start` is recorded as stray; there is nothing beyond the written end
+pub struct SparseDest { pub start: u64, pub pos: u64, pub hi: Vec<u8>, pub stray: Vec<(u64, usize)> }
+impl SparseDest { pub fn new(start: u64) -> Self { SparseDest { start, pos: start, hi: vec![], stray: vec![] } } }
+impl Write for SparseDest {
+    fn write(&mut self, b: &[u8]) -> std::io::Result<usize> {
+        if b.is_empty() { return Ok(0); }
+        if self.pos < self.start { self.stray.push((self.pos, b.len())); self.pos += b.len() as u64; return Ok(b.len()); }
+        let off = (self.pos - self.start) as usize;
+        if off > (1 << 28) { return Err(std::io::Error::other("sparse destination: write too far beyond the start")); }
+        if self.hi.len() < off + b.len() { self.hi.resize(off + b.len(), 0); }
+        self.hi[off..off + b.len()].copy_from_slice(b); self.pos += b.len() as u64; Ok(b.len())
+    }
+    fn flush(&mut self) -> std::io::Result<()> { Ok(()) }
+}
+impl Seek for SparseDest {
+    fn seek(&mut self, p: SeekFrom) -> std::io::Result<u64> {
+        let end = self.start + self.hi.len() as u64;
+        let np = match p { SeekFrom::Start(x) => x as i128, SeekFrom::Current(d) => self.pos as i128 + d as i128, SeekFrom::End(d) => end as i128 + d as i128 };
+        if np < 0 || np > u64::MAX as i128 { return Err(std::io::Error::other("seek out of range")); }
+        self.pos = np as u64; Ok(self.pos)
+    }
+}
+
 pub fn digest(b: &[u8]) -> (u64, u64) {
     let (mut a, mut c) = (1u64, 0u64);
     for x in b { a = (a + *x as u64) % 65521; c = (c + a) % 65521; }
@@ -236,6 +260,22 @@ pub fn run_live(a: &Args) {
         // every call as a fault point on the first two targets (a dump takes milliseconds), a sample on the others
         let ks: Vec<usize> = if a.tier == "thorough" || case < 2 { (2..=total).collect() } else { (0..5).map(|_| rng.range(2, total.max(3) as u64) as usize).collect() };
         for k in ks { runs.push((Some(k), None, false)); }   // a destination that tears single writes cannot keep the header+directory write atomic: not combined with injected errors
+        // a destination positioned at and beyond 4 GiB (offsets that do not fit 32 bits)
+        for start in [1u64 << 32, (1 << 32) + 64, (1 << 40) + 12345, u32::MAX as u64] {
+            if case >= 3 && a.tier != "thorough" { break; }
+            target.settle();
+            let mut cfg = configure(&mut rng, &plan, &target);
+            let mut dest = SparseDest::new(start);
+            let res = quiet_catch(std::panic::AssertUnwindSafe(|| cfg.writer.dump(&mut dest).map_err(|e| format!("{e:?}"))));
+            let mut l = Line::new("const"); l.u(case).u(3).u(start);
+            let mut r = Line::bare();
+            match &res {
+                Ok(Ok(img)) => { if dest.stray.is_empty() && dest.hi == *img { r.u(case).u(3).u(start); } else { r.0 = format!("!destination positioned at {start} differs from the returned image: writes below the start {:?}, stored bytes equal the image {}", &dest.stray[..dest.stray.len().min(4)], dest.hi == *img); } }
+                Ok(Err(e)) => { r.0 = format!("!dump into a destination positioned at {start} failed: {}", e.chars().take(200).collect::<String>()); }
+                Err(p) => { r.0 = format!("!dump panicked (start {start}): {p}"); }
+            }
+            out.case(l.s(), r.s(), true); out.count("run.start_beyond_4gib");
+        }
         for (fail_at, chunk, snapshots) in runs {
             target.settle();
             let mut cfg = configure(&mut rng, &plan, &target);
